@@ -29,13 +29,19 @@ class ContractBroken(Exception):
 
 # ------------------------------------------------------------------ field decoder contract
 def field_ends_within_payload(self, anam, offset, result):
-    _bump("field_ends_within_payload")
-    if result > self._payblen:
-        RECORDED.append(("field-past-end",
-                         f"field {anam} ends at bit {result} > payload bits {self._payblen}"))
-    if result < offset:
-        RECORDED.append(("offset-decreased", f"field {anam}: offset {offset} -> {result}"))
-    VISITS.add((CURRENT["identity"], anam))
+    """Evidence only. Must never disturb the code it observes: whatever goes wrong in here (a renamed private
+    attribute, another signature) is swallowed and the condition holds."""
+    try:
+        _bump("field_ends_within_payload")
+        nbits = getattr(self, "_payblen", None)
+        if isinstance(nbits, int) and isinstance(result, int):
+            if result > nbits:
+                RECORDED.append(("field-past-end", f"field {anam} ends at bit {result} > payload bits {nbits}"))
+            if isinstance(offset, int) and result < offset:
+                RECORDED.append(("offset-decreased", f"field {anam}: offset {offset} -> {result}"))
+        VISITS.add((CURRENT["identity"], anam))
+    except Exception:
+        pass
     return True
 
 
@@ -48,6 +54,10 @@ def install_field_monitor():
         orig = RTCMMessage.__dict__.get("_set_attribute_single")
         if orig is None or getattr(orig, "_vf_wrapped", False):
             return orig is not None
+        import inspect
+
+        if list(inspect.signature(orig).parameters)[:3] != ["self", "anam", "offset"]:
+            return False  # another signature: the optional internal monitor is not attached
         wrapped = icontract.ensure(field_ends_within_payload, error=ContractBroken)(orig)
         wrapped._vf_wrapped = True
         RTCMMessage._set_attribute_single = wrapped
@@ -69,22 +79,37 @@ def install_crc_monitor():
         from vf import refcrc
 
         def crc_matches_reference(message, result):
-            _bump("crc_matches_reference")
-            if result != refcrc.crc_ref2(bytes(message)):
-                RECORDED.append(("crc-mismatch", f"calc_crc24q({bytes(message)[:16].hex()}..) = {result:#x}"))
+            try:
+                _bump("crc_matches_reference")
+                if result != refcrc.crc_ref2(bytes(message)):
+                    RECORDED.append(("crc-mismatch", f"calc_crc24q({bytes(message)[:16].hex()}..) = {result:#x}"))
+            except Exception:
+                pass
             return True
 
         def crcbytes_match_reference(message, result):
-            _bump("crcbytes_match_reference")
-            if result != refcrc.crc_ref2(bytes(message)).to_bytes(3, "big"):
-                RECORDED.append(("crc2bytes-mismatch", f"crc2bytes(..{len(message)} bytes) = {result!r}"))
+            try:
+                _bump("crcbytes_match_reference")
+                if result != refcrc.crc_ref2(bytes(message)).to_bytes(3, "big"):
+                    RECORDED.append(("crc2bytes-mismatch", f"crc2bytes(..{len(message)} bytes) = {result!r}"))
+            except Exception:
+                pass
             return True
 
         def len_is_16bit_bigendian(payload, result):
-            _bump("len_is_16bit_bigendian")
-            if result != bytes([len(payload) >> 8, len(payload) & 0xFF]):
-                RECORDED.append(("len2bytes-mismatch", f"len2bytes({len(payload)}) = {result!r}"))
+            try:
+                _bump("len_is_16bit_bigendian")
+                if result != bytes([len(payload) >> 8, len(payload) & 0xFF]):
+                    RECORDED.append(("len2bytes-mismatch", f"len2bytes({len(payload)}) = {result!r}"))
+            except Exception:
+                pass
             return True
+
+        import inspect
+
+        for fn_, names_ in ((H.calc_crc24q, ["message"]), (H.crc2bytes, ["message"]), (H.len2bytes, ["payload"])):
+            if list(inspect.signature(fn_).parameters) != names_:
+                return False  # other parameter names: the optional internal monitors are not attached
 
         if not getattr(H.calc_crc24q, "_vf_wrapped", False):
             c = icontract.ensure(crc_matches_reference, error=ContractBroken)(H.calc_crc24q)
